@@ -250,9 +250,16 @@ def run_config(acc, c, tmpdir, live=False):
     if c.get("grid"):
         acc.count("version_grid_cells")
     pin = None
-    with Stack(dev, pin=_P()) as s:
+    # a fifth of the non-live Ledger configurations run the manager in legacy
+    # (--version-one) mode: same bring-up, other request handlers
+    v1 = (not live and c["platform"] == "ledger" and zlib.crc32(key.encode()) % 5 == 0)
+    if v1:
+        acc.count("configurations_in_legacy_mode")
+    with Stack(dev, pin=_P(), version_one=v1) as s:
         pin = make_pin(c, tmpdir)
         s.protocol.pin = pin
+        if v1:
+            s.protocol.protocol_v2.pin = pin     # (legacy mode delegates to it)
         served = False
         exc = None
         if c.get("unlock_fault"):
@@ -319,14 +326,14 @@ def run_config(acc, c, tmpdir, live=False):
         acc.count("served" if served else "refused")
         if served and not live and c["platform"] == "ledger" and \
                 zlib.crc32(key.encode()) % 2 == 0:
-            unsafe_after_reconnection(acc, c, s, dev, bad)
+            unsafe_after_reconnection(acc, c, s, dev, bad, v1)
         if len(acc.samples) < 3 and (served or n_unlock):
             acc.sample({"config": c, "served": served, "unlock_commands": n_unlock,
                         "outcome": repr(exc) if exc else "initialize_device returned",
                         "apdu_cmds": [("%02x" % e["apdu"][1]) for e in apdus if e["apdu"]]})
 
 
-def unsafe_after_reconnection(acc, c, s, dev, bad):
+def unsafe_after_reconnection(acc, c, s, dev, bad, v1=False):
     """the manager is serving; the link fails; the device that is there afterwards is one
     the bring-up would never accept (unsupported signer, not onboarded, locked with no
     retries left), and the first repair attempt is cut short by a time-out or an error
@@ -334,7 +341,8 @@ def unsafe_after_reconnection(acc, c, s, dev, bad):
     from ..simdev.transport import Fault
     rng = random.Random(zlib.crc32(json.dumps(c, sort_keys=True).encode()))
     # (a command the simulated device answers in any configuration)
-    req = {"command": "blockchainParameters", "version": 5}
+    req = {"command": "blockchainParameters", "version": 5} if not v1 else \
+        {"command": "getPubKey", "version": 1, "keyId": "m/44'/137'/0'/0/0"}
     s.bus.arm({0: Fault(rng.choice(["read_error", "write_error"]))})
     s.request(req)
     s.bus.arm({})
@@ -370,7 +378,7 @@ def unsafe_after_reconnection(acc, c, s, dev, bad):
     # the requests that run into the repair are of any kind (each command's handler has
     # its own call of the reconnection and its own error handling around it)
     from . import c02
-    pool = [v for k_, v in sorted(c02.bases(rng, False).items()) if k_ != "version"]
+    pool = [v for k_, v in sorted(c02.bases(rng, v1).items()) if k_ != "version"]
     cut = rng.choice([None, (0x43, "timeout"), (0x06, "timeout"), (0x11, "sw"),
                       (0x43, "sw"), (0x06, "sw")])
     if cut:
